@@ -26,6 +26,7 @@ import (
 	"context"
 	"fmt"
 	"math/rand"
+	"reflect"
 	"runtime"
 	"sort"
 	"strconv"
@@ -59,11 +60,51 @@ type c16Host struct {
 	jr        *rand.Rand
 	sleepPm   int // per-mille of jitter calls that sleep
 	yieldPm   int
+	chNames   map[uintptr]string // channels the script has named with chname(ch, name)
+}
+
+// named basic types the workload binds into the environment (DefineType): a
+// channel of such an element type, and values of such a type sent on channels
+// of the plain basic type, exercise "converted to the channel's element type"
+// for types that share the reflect kind but are different types
+type c16Nanos int64
+type c16Level string
+
+// c16DefineTypes binds the named types and the host functions that make values
+// of them (the scripts have no conversion syntax of their own).
+func c16DefineTypes(e interface {
+	Define(string, interface{}) error
+	DefineType(string, interface{}) error
+}) {
+	e.DefineType("Nanos", c16Nanos(0))
+	e.DefineType("Level", c16Level(""))
+	e.DefineType("Duration", time.Duration(0))
+	e.Define("nanos", func(x int64) c16Nanos { return c16Nanos(x) })
+	e.Define("dur", func(x int64) time.Duration { return time.Duration(x) })
+	e.Define("level", func(x string) c16Level { return c16Level(x) })
+	e.Define("i32", func(x int64) int32 { return int32(x) })
+	e.Define("ints", func(a, b int64) []int64 { return []int64{a, b} })
+}
+
+// renderArg renders one argument of args(): like ank.Render, but a channel is
+// rendered by the name the script registered for it (h.mu held)
+func (h *c16Host) renderArg(v interface{}) string {
+	rv := reflect.ValueOf(v)
+	if rv.IsValid() && rv.Kind() == reflect.Chan {
+		if rv.IsNil() {
+			return "nil"
+		}
+		if n, ok := h.chNames[rv.Pointer()]; ok {
+			return "chan:" + n
+		}
+		return "chan:?"
+	}
+	return ank.Render(v)
 }
 
 func newC16Host(limit int, seed int64, sleepPm, yieldPm int) *c16Host {
 	return &c16Host{collected: map[string][]string{}, collects: map[string]int{}, args: map[string][]string{},
-		ticks: map[string]int{}, reports: map[string][]string{}, limit: limit, budget: 60*(limit+10) + 500,
+		ticks: map[string]int{}, reports: map[string][]string{}, chNames: map[uintptr]string{}, limit: limit, budget: 60*(limit+10) + 500,
 		jr: rand.New(rand.NewSource(seed)), sleepPm: sleepPm, yieldPm: yieldPm}
 }
 
@@ -123,9 +164,17 @@ func (h *c16Host) define(def func(string, interface{}) error) {
 		}
 		parts := make([]string, len(a))
 		for i, v := range a {
-			parts[i] = ank.Render(v)
+			parts[i] = h.renderArg(v)
 		}
 		h.args[key] = append(h.args[key], strings.Join(parts, " "))
+	})
+	def("chname", func(ch interface{}, name string) {
+		h.mu.Lock()
+		defer h.mu.Unlock()
+		h.ev()
+		if rv := reflect.ValueOf(ch); rv.IsValid() && rv.Kind() == reflect.Chan && !rv.IsNil() {
+			h.chNames[rv.Pointer()] = name
+		}
 	})
 	def("mark", func(tag interface{}, j interface{}) interface{} {
 		h.mu.Lock()
@@ -413,6 +462,7 @@ func c16Execute(c *wk.Case, p *c16Prog, procs int, h *c16Host) *c16Run {
 	h.cancel = cancel
 	e := ank.NewCoreEnv()
 	h.define(e.Define)
+	c16DefineTypes(e)
 	c.Begin(map[string]interface{}{"src": p.src, "gomaxprocs": procs})
 	run := func(src string) ank.Out {
 		done := make(chan ank.Out, 1)
@@ -483,6 +533,7 @@ type c16Prog struct {
 	syncN    int
 	fam      byte
 	final    string
+	zipForm  string // zip programs: how the zip stage receives from its second input
 	sleepPm  int
 	yieldPm  int
 }
@@ -494,8 +545,13 @@ type c16Elem struct {
 
 var (
 	c16ElemIface = c16Elem{"interface", ""}
-	c16NumElems  = []c16Elem{c16ElemIface, {"int64", "int64"}, {"float64", "float64"}, {"int32", "int32"}, {"int64", "int64"}}
-	c16StrElems  = []c16Elem{c16ElemIface, {"string", "string"}, {"string", "string"}}
+	c16ElemNanos = c16Elem{"Nanos", "main.c16Nanos"}
+	c16ElemDur   = c16Elem{"Duration", "time.Duration"}
+	c16ElemLevel = c16Elem{"Level", "main.c16Level"}
+	// Nanos/Duration/Level: named types of kind int64/int64/string (see c16DefineTypes):
+	// a chain int64 -> Nanos -> int64 -> Duration converts between different types of one kind
+	c16NumElems  = []c16Elem{c16ElemIface, {"int64", "int64"}, {"float64", "float64"}, {"int32", "int32"}, {"int64", "int64"}, c16ElemNanos, c16ElemDur}
+	c16StrElems  = []c16Elem{c16ElemIface, {"string", "string"}, {"string", "string"}, c16ElemLevel}
 	c16ListElems = []c16Elem{c16ElemIface, {"[]int64", "[]int64"}, {"[]int64", "[]int64"}}
 )
 
@@ -529,9 +585,16 @@ func c16Val(fam byte, p, i int, typ string) interface{} {
 			return float64(x)
 		case "int32":
 			return int32(x)
+		case "main.c16Nanos":
+			return c16Nanos(x)
+		case "time.Duration":
+			return time.Duration(x)
 		}
 		return x
 	case 's':
+		if typ == "main.c16Level" {
+			return c16Level("m" + strconv.Itoa(p) + "_" + strconv.Itoa(i))
+		}
 		return "m" + strconv.Itoa(p) + "_" + strconv.Itoa(i)
 	}
 	if typ == "[]int64" {
@@ -562,6 +625,18 @@ type c16Gen struct {
 	fam   byte
 	heavy bool // many items: light jitter, no per-item extras
 	jitPc int  // percent of candidate points that get a jitter() call
+	// producers send wrap(item): "" or the host function making a value of a named type
+	srcWrap string
+	srcTyp  string            // dynamic type of what the producers send
+	chDecl  map[string]string // channel name -> element type spelling
+}
+
+// item is the script expression of message (pe, je) as the producers send it
+func (g *c16Gen) item(pe, je string) string {
+	if g.srcWrap != "" {
+		return g.srcWrap + "(" + c16Item(g.fam, pe, je) + ")"
+	}
+	return c16Item(g.fam, pe, je)
 }
 
 func (g *c16Gen) jit() string {
@@ -604,6 +679,8 @@ func (g *c16Gen) mkChan(name string, el c16Elem, cp int) {
 	} else {
 		fmt.Fprintf(&g.decl, "%s = make(chan %s, %d)\n", name, el.decl, cp)
 	}
+	fmt.Fprintf(&g.decl, "chname(%s, %q)\n", name, name)
+	g.chDecl[name] = el.decl
 	g.tag("elem:" + el.decl)
 	g.tag(capTag(cp))
 }
@@ -622,7 +699,7 @@ type c16Names struct{ i, o, k, n, pre string }
 // producer loop: sends items (k, 0..n-1) on o
 func (g *c16Gen) producerBody(nm c16Names, end string, marks bool) string {
 	j := nm.pre + "j"
-	send := g.jit() + nm.o + " <- " + c16Item(g.fam, nm.k, j)
+	send := g.jit() + nm.o + " <- " + g.item(nm.k, j)
 	if marks {
 		send += `; mark("s", ` + j + ")"
 	}
@@ -729,7 +806,7 @@ func (g *c16Gen) launch(st c16Stage) {
 		g.tag("launch:main-inline")
 		return
 	}
-	form := []string{"named4", "anon4", "closure", "pads6", "variadic", "spread", "markarg", "elems4", "anon4", "pads6elems"}[g.r.Intn(10)]
+	form := []string{"named4", "anon4", "closure", "pads6", "variadic", "spread", "markarg", "elems4", "anon4", "pads6elems", "slot4", "field4", "bindslot4"}[g.r.Intn(13)]
 	g.tag("launch:" + form)
 	g.p.argForm[kr] = form
 	exp := ank.Render(int64(st.k)) + " " + ank.Render(int64(st.n))
@@ -766,6 +843,64 @@ func (g *c16Gen) launch(st c16Stage) {
 		fmt.Fprintf(&g.decl, "func %s(i, o, k, n, pa, pb) {\n%s}\n", fn, indent(g.wrapTry("k", "args(k, n, pa, pb)\n"+st.body(nm))))
 		fmt.Fprintf(&g.main, "%sgp = {\"a\": %d, \"b\": [\"p%d\"]}\ngo %s(gi, gq, gk, gn, gp.a, gp.b[0])\n%sgp.a = 0; gp.b[0] = \"\"\n", setv, 11*st.k, st.k, fn, unset)
 		exp += " " + ank.Render(int64(11*st.k)) + " " + ank.Render("p"+ks)
+	case "slot4", "field4", "bindslot4":
+		// the channels are read from TYPED slots ([]chan T elements / struct fields of chan
+		// type), as go-call arguments or through a binding, and the slots are assigned other
+		// channels right after (slots reused for the next stage): the goroutine works on the
+		// channels that were in the slots at the go statement / at the binding. The stage
+		// reports the channels it got (args renders a channel by its registered name) once the
+		// gate st is closed, i.e. after the slots have been overwritten, so the observation
+		// does not depend on the schedule.
+		fmt.Fprintf(&g.decl, "func %s(i, o, k, n, st) {\n%s}\n", fn, indent(g.wrapTry("k", "<-st\nargs(k, n, i, o)\n"+st.body(nm))))
+		var b strings.Builder
+		b.WriteString(setv + "gst = make(chan interface)\n")
+		ie, oe := "gi", "gq" // a nil side stays in its variable
+		var store, over []string
+		name := func(ch string) string {
+			if ch == "nil" {
+				return "nil"
+			}
+			return "chan:" + ch
+		}
+		if form == "field4" {
+			var fields []string
+			if st.in != "nil" {
+				fields = append(fields, "In chan "+g.chDecl[st.in])
+				ie = "gw.In"
+			}
+			if st.out != "nil" {
+				fields = append(fields, "Out chan "+g.chDecl[st.out])
+				oe = "gw.Out"
+			}
+			fmt.Fprintf(&b, "gw = make(struct { %s })\n", strings.Join(fields, ", "))
+		} else {
+			if st.in != "nil" {
+				fmt.Fprintf(&b, "gsi = make([]chan %s, 2)\n", g.chDecl[st.in])
+				ie = "gsi[1]"
+			}
+			if st.out != "nil" {
+				fmt.Fprintf(&b, "gso = make([]chan %s, 2)\n", g.chDecl[st.out])
+				oe = "gso[0]"
+			}
+		}
+		if st.in != "nil" {
+			store = append(store, ie+" = gi")
+			over = append(over, fmt.Sprintf("%s = make(chan %s, 1)", ie, g.chDecl[st.in]))
+		}
+		if st.out != "nil" {
+			store = append(store, oe+" = gq")
+			over = append(over, fmt.Sprintf("%s = make(chan %s, 1)", oe, g.chDecl[st.out]))
+		}
+		b.WriteString(strings.Join(store, "; ") + "\n")
+		if form == "bindslot4" {
+			// bound to names first, slots overwritten, then passed
+			fmt.Fprintf(&b, "gbi = %s; gbo = %s\n%s\ngo %s(gbi, gbo, gk, gn, gst)\ngbi = nil; gbo = nil\n", ie, oe, strings.Join(over, "; "), fn)
+		} else {
+			fmt.Fprintf(&b, "go %s(%s, %s, gk, gn, gst)\n%s\n", fn, ie, oe, strings.Join(over, "; "))
+		}
+		b.WriteString(unset + "close(gst)\n")
+		g.main.WriteString(b.String())
+		exp += " " + name(st.in) + " " + name(st.out)
 	case "variadic":
 		fmt.Fprintf(&g.decl, "func %s(i, o, rest...) {\n  k = rest[0]; n = rest[1]\n%s}\n", fn, indent(g.wrapTry("k", "args(k, n, len(rest))\n"+st.body(nm))))
 		g.main.WriteString(setv + "go " + fn + "(gi, gq, gk, gn)\n" + unset)
@@ -865,6 +1000,8 @@ func newC16Gen(r *rand.Rand, kind string, n int) *c16Gen {
 		recvForm: map[string]string{}, expRep: map[string][]string{}, repSig: map[string]string{}, syncCap: -1, consumer: "int64(0)"}}
 	g.fam = "nnsl"[r.Intn(4)]
 	g.p.fam = g.fam
+	g.chDecl = map[string]string{}
+	g.srcTyp = c16StartType(g.fam)
 	g.heavy = n > 100
 	g.jitPc = []int{0, 20, 50, 90}[r.Intn(4)]
 	g.p.sleepPm, g.p.yieldPm = 60, 400
@@ -877,6 +1014,27 @@ func newC16Gen(r *rand.Rand, kind string, n int) *c16Gen {
 	return g
 }
 
+// pickSource: in a third of the pipeline programs the producers send values of a
+// named type of the family's kind (made by a host function)
+func (g *c16Gen) pickSource() {
+	if g.r.Intn(3) != 0 {
+		return
+	}
+	switch g.fam {
+	case 'n':
+		if g.r.Intn(2) == 0 {
+			g.srcWrap, g.srcTyp = "nanos", "main.c16Nanos"
+		} else {
+			g.srcWrap, g.srcTyp = "dur", "time.Duration"
+		}
+	case 's':
+		g.srcWrap, g.srcTyp = "level", "main.c16Level"
+	}
+	if g.srcWrap != "" {
+		g.tag("source:" + g.srcWrap)
+	}
+}
+
 func (g *c16Gen) finish() *c16Prog {
 	g.p.src = g.decl.String() + g.main.String()
 	return g.p
@@ -885,9 +1043,10 @@ func (g *c16Gen) finish() *c16Prog {
 // linear: producer -> m forwarding stages -> consumer
 func c16Linear(r *rand.Rand, n int, tier string) *c16Prog {
 	g := newC16Gen(r, "linear", n)
+	g.pickSource()
 	m := r.Intn(3)
 	els := c16ElemsOf(g.fam)
-	typ := c16StartType(g.fam)
+	typ := g.srcTyp
 	chans := make([]string, m+1)
 	caps := make([]int, m+1)
 	var lastEl c16Elem
@@ -948,11 +1107,11 @@ func c16Linear(r *rand.Rand, n int, tier string) *c16Prog {
 		if n < pre {
 			pre = n
 		}
-		fmt.Fprintf(&g.main, "for mj = 0; mj < %d; mj++ { %s <- %s }\n", pre, chans[0], c16Item(g.fam, "1", "mj"))
+		fmt.Fprintf(&g.main, "for mj = 0; mj < %d; mj++ { %s <- %s }\n", pre, chans[0], g.item("1", "mj"))
 		for _, st := range gor {
 			g.launch(st)
 		}
-		fmt.Fprintf(&g.main, "for mj = %d; mj < %d; mj++ { %s%s <- %s }\nclose(%s)\n", pre, n, g.jit(), chans[0], c16Item(g.fam, "1", "mj"), chans[0])
+		fmt.Fprintf(&g.main, "for mj = %d; mj < %d; mj++ { %s%s <- %s }\nclose(%s)\n", pre, n, g.jit(), chans[0], g.item("1", "mj"), chans[0])
 		g.tag("prefill-buffer")
 	} else {
 		for _, st := range gor {
@@ -974,10 +1133,11 @@ func c16Linear(r *rand.Rand, n int, tier string) *c16Prog {
 // fan-in: K producers -> c0 (closed by a counting closer) -> m forwarders -> consumer
 func c16FanIn(r *rand.Rand, n int, tier string) *c16Prog {
 	g := newC16Gen(r, "fanin", n)
+	g.pickSource()
 	K := 2 + r.Intn(3)
 	m := r.Intn(2)
 	els := c16ElemsOf(g.fam)
-	typ := c16StartType(g.fam)
+	typ := g.srcTyp
 	chans := make([]string, m+1)
 	var lastEl c16Elem
 	for t := 0; t <= m; t++ {
@@ -988,7 +1148,8 @@ func c16FanIn(r *rand.Rand, n int, tier string) *c16Prog {
 		lastEl = el
 	}
 	g.p.final = typ
-	fmt.Fprintf(&g.decl, "fin = make(chan interface, %d)\ndone = make(chan interface)\n", []int{0, 1, K}[r.Intn(3)])
+	fmt.Fprintf(&g.decl, "fin = make(chan interface, %d)\ndone = make(chan interface)\nchname(fin, \"fin\")\n", []int{0, 1, K}[r.Intn(3)])
+	g.chDecl["fin"] = "interface"
 	g.tag("producers:" + strconv.Itoa(K))
 	total := 0
 	var stages []c16Stage
@@ -1050,14 +1211,16 @@ func c16FanIn(r *rand.Rand, n int, tier string) *c16Prog {
 // fan-out: producer -> c0 -> W workers -> c1 (tagged [w, v], closed by a counting closer) -> consumer
 func c16FanOut(r *rand.Rand, n int, tier string) *c16Prog {
 	g := newC16Gen(r, "fanout", n)
+	g.pickSource()
 	W := 2 + r.Intn(3)
 	els := c16ElemsOf(g.fam)
 	el0 := els[r.Intn(len(els))]
 	g.mkChan("c0", el0, g.pickCap(n))
 	g.mkChan("c1", c16ElemIface, g.pickCap(n))
-	typ := c16Fold(c16StartType(g.fam), el0)
+	typ := c16Fold(g.srcTyp, el0)
 	g.p.final = "[w," + typ + "]"
-	fmt.Fprintf(&g.decl, "fin = make(chan interface, %d)\ndone = make(chan interface)\n", []int{0, 1, W}[r.Intn(3)])
+	fmt.Fprintf(&g.decl, "fin = make(chan interface, %d)\ndone = make(chan interface)\nchname(fin, \"fin\")\n", []int{0, 1, W}[r.Intn(3)])
+	g.chDecl["fin"] = "interface"
 	g.tag("workers:" + strconv.Itoa(W))
 	for w := 1; w <= W; w++ {
 		for i := 0; i < n; i++ {
@@ -1103,14 +1266,16 @@ func c16FanOut(r *rand.Rand, n int, tier string) *c16Prog {
 func c16Sync(r *rand.Rand, tier string) *c16Prog {
 	n := []int{1, 2, 5, 20, 50}[r.Intn(5)]
 	g := newC16Gen(r, "sync", n)
+	g.pickSource()
 	els := c16ElemsOf(g.fam)
 	el := els[r.Intn(len(els))]
 	cp := r.Intn(4)
-	fmt.Fprintf(&g.decl, "c0 = make(chan %s%s)\n", el.decl, []string{"", ", 1", ", 2", ", 3"}[cp])
+	fmt.Fprintf(&g.decl, "c0 = make(chan %s%s)\nchname(c0, \"c0\")\n", el.decl, []string{"", ", 1", ", 2", ", 3"}[cp])
+	g.chDecl["c0"] = el.decl
 	g.tag("elem:" + el.decl)
 	g.tag(capTag(cp))
 	g.decl.WriteString("done = make(chan interface)\n")
-	typ := c16Fold(c16StartType(g.fam), el)
+	typ := c16Fold(g.srcTyp, el)
 	g.p.final = typ
 	for i := 0; i < n; i++ {
 		key := ank.Render(c16Val(g.fam, 1, i, typ))
@@ -1136,15 +1301,148 @@ func c16Sync(r *rand.Rand, tier string) *c16Prog {
 	return g.finish()
 }
 
+// zip: two producers -> ca, cb -> a zip stage `for x in ca { y = <-cb; co <- [x, y] }` -> consumer.
+// The stage receives from a SECOND channel directly in the body of its for-in over the
+// first one (receive expression, v/ok form, a nested for-in left by break); optionally the
+// consumer does the same with an acknowledgement channel. Every for-in goes on with its own
+// channel after a receive from another one: the consumer gets exactly [a_i, b_i], i = 0..n-1.
+func c16Zip(r *rand.Rand, n int, tier string) *c16Prog {
+	g := newC16Gen(r, "zip", n)
+	g.pickSource()
+	els := c16ElemsOf(g.fam)
+	elA, elB := els[r.Intn(len(els))], els[r.Intn(len(els))]
+	g.mkChan("ca", elA, g.pickCap(n))
+	g.mkChan("cb", elB, g.pickCap(n))
+	g.mkChan("co", c16ElemIface, g.pickCap(n))
+	typA, typB := c16Fold(g.srcTyp, elA), c16Fold(g.srcTyp, elB)
+	g.p.final = "[" + typA + "," + typB + "]"
+	g.decl.WriteString("done = make(chan interface" + []string{"", ", 1"}[r.Intn(2)] + ")\n")
+	for i := 0; i < n; i++ {
+		key := ank.Render([]interface{}{c16Val(g.fam, 1, i, typA), c16Val(g.fam, 2, i, typB)})
+		g.p.keys[key] = c16Msg{group: 1, seq: i, id: i}
+		g.p.exact = append(g.p.exact, key)
+	}
+	g.p.total = n
+	ack := r.Intn(3) == 0
+	if ack {
+		fmt.Fprintf(&g.decl, "acks = make(chan interface, %d)\n", g.pickCap(n))
+		g.tag("zip:ack-consumer")
+	}
+	// the zip stage
+	form := []string{"expr", "expr-inline", "ok", "nested-break", "expr"}[r.Intn(5)]
+	g.tag("zip:" + form)
+	zipBody := func(a, b, o, k string) string {
+		send := func(v string) string {
+			s := o + " <- [zx, " + v + "]"
+			if ack {
+				s += "; acks <- " + []string{"true", "zx", "1"}[r.Intn(3)]
+			}
+			return s
+		}
+		var body string
+		switch form {
+		case "expr":
+			body = "zy = <-" + b + "; " + g.jit() + send("zy")
+		case "expr-inline":
+			body = g.jit() + send("<-"+b)
+		case "ok":
+			body = "zy, zok = <-" + b + "; if !zok { fail(" + k + ", \"second input closed early\") }; " + g.jit() + send("zy")
+		default:
+			body = "for zy in " + b + " { " + g.jit() + send("zy") + "; break }"
+		}
+		// when ca is closed and drained n items have been taken from cb, which its
+		// producer has closed as well: the receive expression yields nil
+		return fmt.Sprintf("for zx in %s { tick(%s); %s }\nreport(\"zip-second-input-left\", (<-%s))\n%sclose(%s)\n", a, k, body, b, g.jit(), o)
+	}
+	g.p.recvForm["int64(3)"] = "forin-zip-" + form
+	g.p.zipForm = form
+	if ack {
+		g.p.zipForm += "+ack"
+	}
+	g.expect("zip-second-input-left", "zip:second-input-not-drained", "nil")
+	consMain := r.Intn(3) == 0
+	zipMain := !consMain && r.Intn(4) == 0
+	var stages []c16Stage
+	for p := 1; p <= 2; p++ {
+		st := c16Stage{k: p, in: "nil", out: []string{"ca", "cb"}[p-1], n: n}
+		st.body = func(nm c16Names) string { return g.producerBody(nm, "close("+nm.o+")", false) }
+		stages = append(stages, st)
+	}
+	consForm := "forin"
+	if !ack {
+		consForm = g.pickRecv(true)
+	}
+	g.p.recvForm["int64(0)"] = consForm
+	cons := c16Stage{k: 0, in: "co", out: "nil", n: n, inMain: consMain}
+	cons.body = func(nm c16Names) string {
+		end := []string{"done <- 1", "close(done)"}[r.Intn(2)]
+		if consMain {
+			end = ""
+		}
+		if !ack {
+			return g.consumerBody(nm, consForm, false, end)
+		}
+		// acknowledging consumer: a receive from acks in the body of the for-in over its input
+		got, v := nm.pre+"got", nm.pre+"v"
+		rcv := []string{nm.pre + "a, " + nm.pre + "aok = <-acks; if !" + nm.pre + "aok { fail(" + nm.k + ", \"acks closed\") }", nm.pre + "a = <-acks", "<-acks"}[r.Intn(3)]
+		return fmt.Sprintf("%s = []\nfor %s in %s { tick(%s); %s%s += [%s]; %s }\ncollect(%s, %s)\n%s\n", got, v, nm.i, nm.k, g.jit(), got, v, rcv, nm.k, got, end)
+	}
+	if !consMain {
+		stages = append(stages, cons)
+	}
+	r.Shuffle(len(stages), func(a, b int) { stages[a], stages[b] = stages[b], stages[a] })
+	zipAt := r.Intn(len(stages) + 1)
+	if zipMain {
+		zipAt = len(stages)
+	}
+	for i := 0; i <= len(stages); i++ {
+		if i == zipAt {
+			switch zf := r.Intn(3); {
+			case zipMain:
+				g.main.WriteString(zipBody("ca", "cb", "co", "3"))
+				g.tag("zip-launch:main-inline")
+			case zf == 0:
+				fmt.Fprintf(&g.decl, "func zs(a, b, o, k) {\n%s}\n", indent(g.wrapTry("k", zipBody("a", "b", "o", "k"))))
+				g.main.WriteString("go zs(ca, cb, co, 3)\n")
+				g.tag("zip-launch:named")
+			case zf == 1:
+				g.main.WriteString("go func(a, b, o, k) {\n" + indent(g.wrapTry("k", zipBody("a", "b", "o", "k"))) + "}(ca, cb, co, 3)\n")
+				g.tag("zip-launch:anon")
+			default:
+				g.main.WriteString("go func() {\n" + indent(g.wrapTry("3", zipBody("ca", "cb", "co", "3"))) + "}()\n")
+				g.tag("zip-launch:closure")
+			}
+		}
+		if i < len(stages) {
+			g.launch(stages[i])
+		}
+	}
+	if consMain {
+		g.tag("main:consumer")
+		g.launch(cons)
+	} else {
+		if zipMain {
+			g.tag("main:zip")
+		} else {
+			g.tag("main:none")
+		}
+		g.main.WriteString("<-done\n")
+	}
+	g.tail("co", c16ElemIface, g.fam)
+	return g.finish()
+}
+
 func c16Generate(r *rand.Rand, tier string) *c16Prog {
 	n := c16PickN(r, tier)
-	switch x := r.Intn(20); {
+	switch x := r.Intn(23); {
 	case x < 9:
 		return c16Linear(r, n, tier)
 	case x < 14:
 		return c16FanIn(r, n, tier)
 	case x < 18:
 		return c16FanOut(r, n, tier)
+	case x < 21:
+		return c16Zip(r, n, tier)
 	}
 	return c16Sync(r, tier)
 }
@@ -1160,11 +1458,35 @@ type c16SemElem struct {
 var c16SemElems = []c16SemElem{
 	{c16ElemIface, 'n'}, {c16ElemIface, 'l'}, {c16Elem{"int64", "int64"}, 'n'}, {c16Elem{"float64", "float64"}, 'n'},
 	{c16Elem{"int32", "int32"}, 'n'}, {c16Elem{"string", "string"}, 's'}, {c16Elem{"[]int64", "[]int64"}, 'l'},
+	{c16ElemNanos, 'n'}, {c16ElemDur, 'n'}, {c16ElemLevel, 's'}, {c16ElemIface, 's'},
 }
+
+// Defects of the unchanged tree found while strengthening (see
+// /tmp/strengthen/C16-r4-genuine.md). The scenarios below are complete and were
+// validated against a scratch copy with the suggested repair; they stay out of
+// the table until /repo is repaired, then the constant is flipped to false.
+const (
+	// `for v in chans[i]` re-reads the slot on every iteration instead of ranging
+	// over the channel that was in it when the loop started
+	c16PendingFix_forinSlotOperand = false
+	// for-in over a channel dereferences a pointer message (`for p in c` yields *p,
+	// `<-c` yields p)
+	c16PendingFix_forinPointerMessage = false
+)
 
 var c16SemCaps = []int{0, 1, 3}
 
-var c16SemScen = []string{"assign-stmt", "recv-expr", "ok-form", "forin", "blocked-recv-woken-by-close", "errors-try", "errors-top-send", "errors-top-close", "go-snapshot", "go-shared-entry", "go-generator", "nil-messages", "go-shared-call-site"}
+var c16SemScen = func() []string {
+	l := []string{"assign-stmt", "recv-expr", "ok-form", "forin", "blocked-recv-woken-by-close", "errors-try", "errors-top-send", "errors-top-close", "go-snapshot", "go-shared-entry", "go-generator", "nil-messages", "go-shared-call-site",
+		"forin-body-recv", "chan-from-slot", "send-converts"}
+	if !c16PendingFix_forinSlotOperand {
+		l = append(l, "forin-slot-operand")
+	}
+	if !c16PendingFix_forinPointerMessage {
+		l = append(l, "pointer-messages")
+	}
+	return l
+}()
 
 func c16SemCount() int { return len(c16SemScen) * len(c16SemElems) * len(c16SemCaps) }
 
@@ -1176,6 +1498,7 @@ func c16Semantic(idx int) *c16Prog {
 	cp := c16SemCaps[idx/len(c16SemElems)]
 	g := newC16Gen(r, "sem:"+scen, 0)
 	g.fam, g.p.fam = se.fam, se.fam
+	g.srcTyp = c16StartType(se.fam)
 	g.jitPc = 0
 	el := se.el
 	typ := c16Fold(c16StartType(se.fam), el)
@@ -1204,7 +1527,204 @@ func c16Semantic(idx int) *c16Prog {
 			fmt.Fprintf(m, "go func() { for j = 0; j < %d; j++ { c <- %s }; close(c) }()\n", q, c16Item(se.fam, "7", "j"))
 		}
 	}
+	// feedCh: channel `name` gets the items (grp, 0..q-1) and is closed
+	valG := func(grp, i int) string { return ank.Render(c16Val(se.fam, grp, i, typ)) }
+	feedCh := func(name string, grp, q int) {
+		if q <= cp {
+			for i := 0; i < q; i++ {
+				fmt.Fprintf(m, "%s <- %s\n", name, c16Item(se.fam, strconv.Itoa(grp), strconv.Itoa(i)))
+			}
+			fmt.Fprintf(m, "close(%s)\n", name)
+		} else {
+			fmt.Fprintf(m, "go func() { for j = 0; j < %d; j++ { %s <- %s }; close(%s) }()\n", q, name, c16Item(se.fam, strconv.Itoa(grp), "j"), name)
+		}
+	}
 	switch scen {
+	case "forin-body-recv":
+		// a receive from ANOTHER channel executed directly in the body of a for-in over a
+		// channel (receive expression, v/ok form, nested for-in): the outer loop goes on
+		// with its own channel and ends when that one is closed
+		feedCh("c", 7, 3)
+		mk("b")
+		feedCh("b", 8, 2)
+		m.WriteString("for x in c { tick(0); report(\"e-outer\", x); report(\"e-inner\", (<-b)) }\nreport(\"e-end\", 1)\n")
+		g.expect("e-outer", "forin-body-recv:expr:outer-items", valG(7, 0), valG(7, 1), valG(7, 2))
+		g.expect("e-inner", "forin-body-recv:expr:inner-items", valG(8, 0), valG(8, 1), "nil")
+		g.expect("e-end", "closed-forin:no-end", "int64(1)")
+		mk("c2")
+		feedCh("c2", 7, 3)
+		mk("b2")
+		feedCh("b2", 8, 2)
+		m.WriteString("for x in c2 { tick(1); report(\"k-outer\", x); v = \"keep\"; v, ok = <-b2; report(\"k-inner\", v); report(\"k-ok\", ok) }\nreport(\"k-end\", 1)\n")
+		g.expect("k-outer", "forin-body-recv:ok-form:outer-items", valG(7, 0), valG(7, 1), valG(7, 2))
+		g.expect("k-inner", "forin-body-recv:ok-form:inner-items", valG(8, 0), valG(8, 1), ank.Render("keep"))
+		g.expect("k-ok", "forin-body-recv:ok-form:inner-items", "true", "true", "false")
+		g.expect("k-end", "closed-forin:no-end", "int64(1)")
+		mk("c3")
+		feedCh("c3", 7, 3)
+		mk("b3")
+		feedCh("b3", 8, 2)
+		m.WriteString("for x in c3 { tick(2); report(\"n-outer\", x); for y in b3 { tick(3); report(\"n-inner\", y) } }\nreport(\"n-end\", 1)\n")
+		g.expect("n-outer", "forin-body-recv:nested-forin:outer-items", valG(7, 0), valG(7, 1), valG(7, 2))
+		g.expect("n-inner", "forin-body-recv:nested-forin:inner-items", valG(8, 0), valG(8, 1))
+		g.expect("n-end", "closed-forin:no-end", "int64(1)")
+		g.p.recvForm["int64(0)"] = "forin-body-recv"
+	case "chan-from-slot":
+		// a channel read from a TYPED slot ([]chan T element, struct field, *p) as a go-call
+		// argument or into a binding is the channel that was in the slot at that moment;
+		// the slot is assigned another channel afterwards. The gate st holds the producers
+		// back until the slots have been overwritten.
+		for _, n := range []string{"first", "second", "third", "fourth", "fifth", "sixth"} {
+			mk(n)
+			fmt.Fprintf(m, "chname(%s, %q)\n", n, n)
+		}
+		fmt.Fprintf(m, "func prod(o, st, base) {\n  <-st\n  args(base, o)\n  for j = 0; j < 2; j++ { o <- %s }\n  close(o)\n}\n", c16Item(se.fam, "base", "j"))
+		fmt.Fprintf(m, "st = make(chan interface)\nsl = make([]chan %s, 1)\nw = make(struct { Out chan %s })\np = new(chan %s)\n", el.decl, el.decl, el.decl)
+		m.WriteString("sl[0] = first\ngo prod(sl[0], st, 1)\nsl[0] = second\ngo prod(sl[0], st, 2)\nsl[0] = nil\n" +
+			"w.Out = third\ngo prod(w.Out, st, 3)\nw.Out = fourth\nb = w.Out\nw.Out = first\n" +
+			"*p = fifth\ngo prod(*p, st, 5)\n*p = sixth\nq = *p\n*p = first\n" +
+			"close(st)\nargs(\"bound-field\", b)\nargs(\"bound-deref\", q)\n" +
+			"go func() { prod(b, st, 4) }()\ngo func() { prod(q, st, 6) }()\n" +
+			"for v in first { report(\"first\", v) }\nfor v in second { report(\"second\", v) }\nfor v in third { report(\"third\", v) }\n" +
+			"for v in fourth { report(\"fourth\", v) }\nfor v in fifth { report(\"fifth\", v) }\nfor v in sixth { report(\"sixth\", v) }\n")
+		for i, n := range []string{"first", "second", "third", "fourth", "fifth", "sixth"} {
+			k := ank.Render(int64(i + 1))
+			g.p.expArgs[k] = k + " chan:" + n
+			g.p.argForm[k] = []string{"chan-slice-slot", "chan-slice-slot", "chan-struct-field", "chan-bound-from-field", "chan-deref", "chan-bound-from-deref"}[i]
+			g.expect(n, "chan-from-slot:wrong-items", valG(i+1, 0), valG(i+1, 1))
+		}
+		g.p.expArgs[`"bound-field"`] = `"bound-field" chan:fourth`
+		g.p.argForm[`"bound-field"`] = "chan-bound-from-field"
+		g.p.expArgs[`"bound-deref"`] = `"bound-deref" chan:sixth`
+		g.p.argForm[`"bound-deref"`] = "chan-bound-from-deref"
+	case "send-converts":
+		// values of every type of the element's family (plain, named types of the same
+		// kind, other number types with an exact conversion) sent on c arrive as values of
+		// the element type (unchanged on an interface channel)
+		type src struct {
+			expr string
+			val  func(typ string) interface{}
+		}
+		var srcs []src
+		num := func(expr, own string, x int64) src {
+			return src{expr, func(t string) interface{} {
+				if t == "" {
+					t = own
+				}
+				switch t {
+				case "float64":
+					return float64(x)
+				case "int32":
+					return int32(x)
+				case "main.c16Nanos":
+					return c16Nanos(x)
+				case "time.Duration":
+					return time.Duration(x)
+				}
+				return x
+			}}
+		}
+		switch se.fam {
+		case 'n':
+			srcs = []src{num("7 * 100000 + 0", "int64", 700000), num("nanos(700001)", "main.c16Nanos", 700001), num("dur(700002)", "time.Duration", 700002),
+				num("700003.0", "float64", 700003), num("i32(700004)", "int32", 700004)}
+		case 's':
+			str := func(expr, own, x string) src {
+				return src{expr, func(t string) interface{} {
+					if t == "" {
+						t = own
+					}
+					if t == "main.c16Level" {
+						return c16Level(x)
+					}
+					return x
+				}}
+			}
+			srcs = []src{str(`"m7_0"`, "string", "m7_0"), str(`level("m7_1")`, "main.c16Level", "m7_1"), str(`"m" + "7_2"`, "string", "m7_2")}
+		default:
+			lst := func(expr string, own string, a, b int64) src {
+				return src{expr, func(t string) interface{} {
+					if t == "" {
+						t = own
+					}
+					if t == "[]int64" {
+						return []int64{a, b}
+					}
+					return []interface{}{a, b}
+				}}
+			}
+			srcs = []src{lst("[7, 0]", "[]interface {}", 7, 0), lst("ints(7, 1)", "[]int64", 7, 1)}
+		}
+		var want []string
+		m.WriteString("go func() {\n")
+		for i, sc := range srcs {
+			fmt.Fprintf(m, "  try { c <- %s } catch e { report(\"send-failed\", %d) }\n", sc.expr, i)
+			want = append(want, ank.Render(sc.val(el.typ)))
+		}
+		m.WriteString("  close(c)\n}()\nfor x in c { tick(0); report(\"conv\", x) }\n")
+		g.expect("conv", "send-converts:wrong-items", want...)
+		g.expect("send-failed", "send-converts:send-failed")
+		if cp > 0 {
+			// the same without a goroutine, received with the receive expression
+			mk("c2")
+			for i, sc := range srcs {
+				fmt.Fprintf(m, "try { c2 <- %s; report(\"conv-direct\", (<-c2)) } catch e { report(\"send-failed\", %d) }\n", sc.expr, 100+i)
+			}
+			g.expect("conv-direct", "send-converts:wrong-items", want...)
+		}
+		g.p.recvForm["int64(0)"] = "forin"
+	case "forin-slot-operand":
+		// `for v in sl[0]` ranges over the channel that is in the slot when the loop starts
+		// (the operand is evaluated once, like Go's range expression): assigning the slot in
+		// the body does not redirect the loop
+		feedCh("c", 7, 3)
+		mk("b")
+		feedCh("b", 8, 2)
+		fmt.Fprintf(m, "sl = make([]chan %s, 2)\nsl[0] = c; sl[1] = b\nw = make(struct { In chan %s })\n", el.decl, el.decl)
+		m.WriteString("for v in sl[0] { tick(0); report(\"slice-slot\", v); sl[0] = sl[1] }\nreport(\"s-end\", 1)\n" +
+			"for v in b { tick(1); report(\"rest\", v) }\n")
+		g.expect("slice-slot", "forin-slot-operand:loop-follows-the-slot", valG(7, 0), valG(7, 1), valG(7, 2))
+		g.expect("s-end", "closed-forin:no-end", "int64(1)")
+		g.expect("rest", "forin-slot-operand:loop-follows-the-slot", valG(8, 0), valG(8, 1))
+		mk("c2")
+		feedCh("c2", 7, 3)
+		mk("b2")
+		feedCh("b2", 8, 2)
+		m.WriteString("w.In = c2\nfor v in w.In { tick(2); report(\"field-slot\", v); w.In = b2 }\nreport(\"f-end\", 1)\n" +
+			"for v in b2 { tick(3); report(\"rest2\", v) }\n")
+		g.expect("field-slot", "forin-slot-operand:loop-follows-the-slot", valG(7, 0), valG(7, 1), valG(7, 2))
+		g.expect("f-end", "closed-forin:no-end", "int64(1)")
+		g.expect("rest2", "forin-slot-operand:loop-follows-the-slot", valG(8, 0), valG(8, 1))
+		g.p.recvForm["int64(0)"] = "forin-slot-operand"
+	case "pointer-messages":
+		// a pointer is a message like any other: the three receive forms deliver the
+		// pointer that was sent (on chan interface: &x; on chan *T: a new(T) cell)
+		ptrDecl := "interface"
+		if el.decl != "interface" {
+			ptrDecl = "*" + el.decl
+		}
+		mkp := func(name string) {
+			fmt.Fprintf(m, "%s = make(chan %s, 2)\n", name, ptrDecl)
+		}
+		fill := func(name string) {
+			for i := 0; i < 2; i++ {
+				if el.decl == "interface" {
+					fmt.Fprintf(m, "x%d = %s; %s <- &x%d\n", i, it(i), name, i)
+				} else {
+					fmt.Fprintf(m, "x%d = new(%s); *x%d = %s; %s <- x%d\n", i, el.decl, i, it(i), name, i)
+				}
+			}
+			fmt.Fprintf(m, "close(%s)\n", name)
+		}
+		mkp("pc")
+		fill("pc")
+		m.WriteString("report(\"p-expr\", (<-pc)); pv, pok = <-pc; report(\"p-ok\", pv)\n")
+		mkp("pd")
+		fill("pd")
+		m.WriteString("for pp in pd { tick(0); report(\"p-forin\", pp) }\n")
+		g.expect("p-expr", "pointer-message:recv-expr", "&"+val(0))
+		g.expect("p-ok", "pointer-message:ok-form", "&"+val(1))
+		g.expect("p-forin", "pointer-message:forin-yields-pointee", "&"+val(0), "&"+val(1))
 	case "assign-stmt":
 		// `v = <-c` read as: assign the receive expression. After close+drain the
 		// receive expression yields nil, so v must be nil (it is not the two-value form).
@@ -1506,7 +2026,12 @@ func c16Judge(p *c16Prog, r *c16Run, h *c16Host) (viols []c16Verdict, inconc []c
 				if pos < len(p.exact) {
 					want = p.exact[pos]
 				}
-				v("wrong-item:"+string(p.fam)+":"+p.final, "consumer received %s at position %d, which no sender sent in that form (e.g. expected %s): value or dynamic type not preserved/converted to the element type", it, pos, want)
+				sig := "wrong-item:" + string(p.fam) + ":" + p.final
+				if p.kind == "zip" {
+					// one signature per shape of the zip stage, whatever the element types
+					sig = "wrong-item:zip-" + p.zipForm
+				}
+				v(sig, "consumer received %s at position %d, which no sender sent in that form (e.g. expected %s): value or dynamic type not preserved/converted to the element type", it, pos, want)
 				bad = true
 				break
 			}
@@ -1726,16 +2251,22 @@ func init() {
 			}
 			return fw.Plan{
 				Level: "exploration",
-				Rule: "phase semantics: complete table scenario{one-value assignment of a receive, receive expression, v/ok form, for-in, receivers blocked in each form woken by close, send-on-closed/double-close in try and as top-level error, go-argument snapshot (variables, list/map elements, 2/5/variadic/anonymous/spread calls)} x 7 element types x capacity{0,1,3}. " +
-					"phases pipelines/pipelines-race: PRNG-generated pipeline programs (linear 2-4 stages with optional prefilled buffer, fan-in with counting closer, fan-out with tagged forwarding, capacity-discipline) over channels of element type interface/int64/float64/int32/string/[]int64 and capacity 0/1/2/n, " +
-					"n in {0,1,2,50,1000} uniquely identified messages, stages launched with go through named/anonymous/closure/6-parameter/variadic/spread/element-argument calls whose argument variables are reassigned right after, receive forms for-in / receive expression / v,ok / counted `out <- <-in`, " +
+				Rule: "phase semantics: complete table scenario{one-value assignment of a receive, receive expression, v/ok form, for-in, receivers blocked in each form woken by close, send-on-closed/double-close in try and as top-level error, go-argument snapshot (variables, list/map elements, 2/5/variadic/anonymous/spread calls), generator, nil messages, shared entry / call site, " +
+					"a receive from another channel (receive expression, v/ok form, nested for-in) in the body of a for-in over a channel, channels read from typed slots ([]chan T element, struct field, *p) as go arguments and into bindings with the slot overwritten afterwards, " +
+					"sends of values of every type of the element's family (plain, host-defined named types Nanos/Duration/Level of the same kind, int32/float64) received converted to the element type} x 11 element types (interface, int64, float64, int32, string, []int64, named Nanos/Duration/Level) x capacity{0,1,3}. " +
+					"phases pipelines/pipelines-race: PRNG-generated pipeline programs (linear 2-4 stages with optional prefilled buffer, fan-in with counting closer, fan-out with tagged forwarding, capacity-discipline, " +
+					"zip: two producers and a stage `for x in a { y = <-b; out <- [x, y] }` that receives from its second input inside the for-in over the first - receive expression / v,ok / nested for-in left by break - optionally with a consumer that takes an acknowledgement inside its for-in) " +
+					"over channels of element type interface/int64/float64/int32/string/[]int64 and the host-defined named types Nanos, Duration (kind int64) and Level (kind string), capacity 0/1/2/n, producers sending plain values or (one program in three) values of a named type made by a host function, " +
+					"n in {0,1,2,50,1000} uniquely identified messages, stages launched with go through named/anonymous/closure/6-parameter/variadic/spread/element-argument calls whose argument variables are reassigned right after, and through calls whose channel arguments are read from typed slots ([]chan T element, struct field; directly or via a binding) that are assigned other channels right after (the stage reports the channels it got, identified by registered name, once a gate is closed), receive forms for-in / receive expression / v,ok / counted `out <- <-in`, " +
 					"host jitter() (PRNG-chosen Gosched/sleep) at PRNG-chosen points, closed-channel and failing-operation checks on the main goroutine at the end; each program runs under GOMAXPROCS 1,2,4,16 x repetitions (race phase: -race worker, one GOMAXPROCS setting per worker process). " +
 					"An evaluation = one run of one program; non-trivial when messages were delivered or closed-channel observations were made; distinct = distinct program source.",
 				Assumptions: []string{
 					"script goroutines communicate only through channels and locking host functions (no unsynchronised shared containers)",
 					"failing operations (send on closed, double close) are issued on the main script goroutine only: an error inside a `go` body has no receiver (C01 territory)",
 					"messages are never nil (a nil message is indistinguishable from the closed-channel result of a receive expression) and never channels (`out <- ch` is anko's receive-and-forward form)",
-					"conversions to the element type are exact ones only (int64 to float64/int32, integral float64 to int64, []interface{} of ints to []int64)",
+					"conversions to the element type are exact ones only (int64 to float64/int32, integral float64 to int64, []interface{} of ints to []int64, between int64/Nanos/Duration and between string/Level)",
+					"named element types are bound by the host with DefineType and values of them are made by host functions; the channels themselves are always made by the script (channels made by the host, e.g. send-only ones, are outside the statement)",
+					"pending repairs of /repo (constants c16PendingFix_*): for-in whose operand is a typed slot that the body reassigns, and pointer messages received by for-in, are generated but kept out of the table",
 					"deadlock is decided from goroutine states only (all interpreter goroutines parked in channel operations in two identical samples); timers pace the sampler and never decide",
 				},
 				Phases: []fw.Phase{
